@@ -211,7 +211,11 @@ def gen_hub_prog(rng):
         if rng.random() < 0.3:
             hub.append(mk.next())
     r = rng.random()
-    hub += [("pause",)] if r < 0.4 else [("wait", rng.choice(DURS + [500, 1000]))] if r < 0.8 else []
+    cyc = rng.random() < 0.35       # wait cycle: the hub waits (waitthread) for a child that waits on the hub
+    if cyc:
+        hub += [("waitthread", 2 + nchild)]
+    else:
+        hub += [("pause",)] if r < 0.4 else [("wait", rng.choice(DURS + [500, 1000]))] if r < 0.8 else []
     hub.append(mk.next())
     if rng.random() < 0.5:
         hub.append(("end", None))
@@ -229,6 +233,8 @@ def gen_hub_prog(rng):
         if rng.random() < 0.3:
             body += [("wait", rng.choice(DURS)), mk.next()]
         prog.append(body)
+    if cyc:
+        prog.append([mk.next(), ("waittillparent", [rng.choice([1, 2])]), mk.next()])
     return prog
 
 
